@@ -268,7 +268,8 @@ func inRange(ip net.IP, CIDRs []string) bool {
 		cidr := CIDRs[i]
 		_, network, err := net.ParseCIDR(cidr)
 		if err != nil {
-			return false
+			// skip entries that are not valid CIDRs, the remaining ranges still apply
+			continue
 		}
 		if network.Contains(ip) {
 			return true
